@@ -128,11 +128,11 @@ CLAIMS = {
         "note": "Same trusted base as C03.",
     },
     "C15": {
-        "engine": "kani",
-        "technique": "Kani/CBMC contract harness per integer encoder, loop-free, full 8..64-bit symbolic domain (complete proof, counterexample replayed natively)",
+        "engine": "kani+verus",
+        "technique": "Kani/CBMC contract harness per integer encoder, loop-free, full 8..64-bit symbolic domain (complete proof, counterexample replayed natively) + Verus proof that the advertised column type and flags are the declared ones ([C09.coldefs]: the client decodes with what the column definitions say)",
         "design_ref": "DESIGN.md section 6 C15",
         "text": "Proof for all values, all column type codes and both signedness flags: for each of the ten Rust integer types and the generic Int/UInt values the real to_mysql_bin is executed symbolically by CBMC against the contract {Ok => exactly width bytes and little-endian decode == value; whole-type-fits => Ok; pointer-sized value fits => Ok; non-integer column => Err; Err => nothing written}. No bound: the harnesses are loop-free over full-width bit-vectors.",
-        "note": "Trusted: CBMC/Kani's model of Rust and of byteorder's write_* on the sink; std::fmt::format stubbed (error message text only); the sink is a 16-byte all-or-nothing Write (the real sink is Vec<u8>).",
+        "note": "Trusted: CBMC/Kani's model of Rust and of byteorder's write_* on the sink; std::fmt::format stubbed (error message text only); the sink is a 16-byte all-or-nothing Write (the real sink is Vec<u8>). The composition 'encoder output + advertised column definition => what the client decodes' is the MySQL binary protocol's reading rule, not proved here; the witness scenario w_c15_ints exercises it end to end (bounded).",
     },
     "C16": {
         "engine": "verus",
